@@ -25,6 +25,7 @@ def main(tier, seed):
     items += fam_seq.misc(seed, tier)
     items += fam_seq.computed_casts(seed, tier)[::3 if quick else 1]
     items += fam_seq.wide_constants()
+    items += [it for it in fam_seq.large_shapes() if it.key[1] != 'tt_odd']
     items += fam_seq.expr_trees(seed, tier)           # every two-operator tree over nine kinds of leaves
     # minimum + 1 word stacks for a few programs
     n_tight = 8 if quick else 60
